@@ -264,6 +264,12 @@ fn cmd_run(args: &[String]) -> i32 {
                         }
                     }
                     if let Some((sched, f)) = fail {
+                        // minimise: smaller scenarios, schedules re-explored for each candidate
+                        let (scn, sched, f) = if f.findings.iter().all(|x| x.check == "harness") {
+                            (scn, sched, f)
+                        } else {
+                            minimise(scn, sched, f, ps, schedules, &execs, &inter)
+                        };
                         if f.findings.iter().all(|x| x.check == "harness") {
                             harness.lock().unwrap().push(format!("program {}: {:?}", i, f.findings));
                         } else {
@@ -339,3 +345,53 @@ fn cmd_run(args: &[String]) -> i32 {
 }
 
 fn silence_hooks_thread() {}
+
+fn try_fail(sc: &Scenario, ps: u64, schedules: usize, execs: &AtomicU64, inter: &Mutex<BTreeSet<u64>>) -> Option<(String, Failure)> {
+    // only scenarios that still hold without threads are candidates
+    let base = seasim::observe::guarded(|| run_scenario::<SeqRt>(sc));
+    if !matches!(&base, Ok(f) if f.is_empty()) {
+        return None;
+    }
+    if let Err(f) = explore(sc, RandomScheduler::new_from_seed(ps, schedules * 2), execs, inter) {
+        return Some(("random".into(), f));
+    }
+    let depth = 1 + (ps % 3) as usize;
+    if let Err(f) = explore(sc, PctScheduler::new_from_seed(ps, depth, schedules * 2), execs, inter) {
+        return Some((format!("pct{}", depth), f));
+    }
+    None
+}
+
+fn minimise(
+    mut sc: Scenario,
+    mut sched: String,
+    mut fail: Failure,
+    ps: u64,
+    schedules: usize,
+    execs: &AtomicU64,
+    inter: &Mutex<BTreeSet<u64>>,
+) -> (Scenario, String, Failure) {
+    let check = fail.findings[0].check.clone();
+    let mut budget = 400;
+    loop {
+        let mut progressed = false;
+        for cand in shrink_candidates(&sc) {
+            if budget == 0 {
+                return (sc, sched, fail);
+            }
+            budget -= 1;
+            if let Some((s2, f2)) = try_fail(&cand, ps, schedules, execs, inter) {
+                if f2.findings.iter().any(|x| x.check == check) {
+                    sc = cand;
+                    sched = s2;
+                    fail = f2;
+                    progressed = true;
+                    break;
+                }
+            }
+        }
+        if !progressed {
+            return (sc, sched, fail);
+        }
+    }
+}
